@@ -640,6 +640,8 @@ class UFuncs:
             key = repr((self.salt, name, tuple(_hkey(a) for a in args),
                         tuple(sorted((k, _hkey(v)) for k, v in kw.items()))))
             v = int.from_bytes(hashlib.blake2b(key.encode(), digest_size=4).digest(), "big") % 997 + 2
+            if name.endswith("slot"):
+                v = v % 3          # (a function whose result is usable as a subscript)
             if self.log is not None:
                 self.log.append((name, tuple(_hkey(a) for a in args),
                                  tuple(sorted((k, _hkey(v)) for k, v in kw.items()))))
